@@ -10,6 +10,9 @@ evaluated at jet positions, and f(w) relations from coefficient_derivatives pert
 The eps-coefficient of S(F) is compared with S(expanded).  If UFL raises, the case is 'rejected'.
 """
 
+import os
+import traceback
+
 import numpy as np
 import ufl
 from ufl.algorithms import expand_derivatives
@@ -45,6 +48,7 @@ ASSUMPTIONS = [
 BUDGET = {"quick": 50, "thorough": 450}
 NCASES = {"quick": 3000, "thorough": 60000}
 FLOORS = {"quick": {"case_held": 400, "nontrivial": 300, "curved_held": 40}, "thorough": {"case_held": 8000, "nontrivial": 6000, "curved_held": 500}}
+INTERNAL_ERRORS = (IndexError, KeyError, AttributeError, TypeError, UnboundLocalError, NameError, AssertionError)
 VARIANTS = ["whole", "whole", "component", "tuple", "auto", "second", "cd", "coef-direction", "mixed-split", "tuple-mixedarg", "tuple-auto", "two-derivatives"]
 COVER_FLOORS = {"quick": {"variants_held": ["whole", "component", "tuple", "auto", "second", "coef-direction", "tuple-mixedarg", "tuple-auto"]}, "thorough": {"variants_held": ["whole", "component", "tuple", "auto", "second", "coef-direction", "cd", "mixed-split", "tuple-mixedarg", "tuple-auto"]}}
 CELLS = [("interval", 1), ("triangle", 2), ("triangle", 2), ("triangle", 3), ("tetrahedron", 3)]
@@ -270,6 +274,26 @@ def case(ctx, i, rng, curved=None):
     except Exception as ex:
         ctx.count("rejected")
         ctx.covered("rejected_with", type(ex).__name__ + ":" + variant)
+        if isinstance(ex, INTERNAL_ERRORS):
+            # "raises if the derivative cannot be represented" is a refusal (ValueError, NotImplementedError).  An
+            # IndexError / KeyError / AttributeError / TypeError out of the expansion's own bookkeeping is not one:
+            # when the directional derivative exists (the interpreter evaluates it by definition on three worlds)
+            # the expansion neither yielded the expression nor refused
+            ws_ = [CurvedWorld(rng, cell, gdim, cplx) for _ in range(3)] if curved else oracle.worlds_for(rng, cell, gdim, itype, cplx, n=3)
+            try:
+                for wd in ws_:
+                    S(F, wd, gateaux=list(frames))
+                exists = True
+            except Exception:
+                exists = False
+            if exists:
+                tb = traceback.extract_tb(ex.__traceback__)
+                site = next((f"{os.path.basename(fr.filename)}:{fr.name}" for fr in reversed(tb) if "/ufl/" in fr.filename), "?")
+                ctx.violation(
+                    f"C02/{variant}/expansion-crashes/{type(ex).__name__}/{site}",
+                    f"expand_derivatives(derivative(F, ...)) raises {type(ex).__name__}: {str(ex)[:120]} (in {site}) although d/dtau F(w + tau v) exists",
+                    {"F": str(F)[:1500], "derivative": str(e)[:900], "variant": variant},
+                )
         return
     ctx.count("accepted")
     for c in node_classes(F):
